@@ -26,7 +26,7 @@ structure TagsOk (qt : Tag → List (Str × Str) → Bool) (cfg : XCfg) : Prop w
   li : ∀ a, qt (.name "li".toList) a = true
   blockquote : ∀ a, qt (.name "blockquote".toList) a = true
   h : ∀ lv a, qt (hTag lv).tag a = true
-  div : cfg.admonition = true → ∀ a, qt (.name "div".toList) a = true
+  div : cfg.admonition = true → ∀ klass, qt (.name "div".toList) [(strClass, strAdmonition ++ ' ' :: klass)] = true
   dl : cfg.defList = true → ∀ a, qt (.name "dl".toList) a = true
   dt : cfg.defList = true → ∀ a, qt (.name "dt".toList) a = true
   dd : cfg.defList = true → ∀ a, qt (.name "dd".toList) a = true
@@ -413,7 +413,8 @@ theorem indentP_good (hc : Closed Ok) (ht : TagsOk qt cfg) (hg : Good Ok qt pb1 
 
 /-! ### admonition -/
 
-theorem admonitionP_good (hc : Closed Ok) (ht : TagsOk qt cfg) (hdiv : ∀ a, qt (.name "div".toList) a = true)
+theorem admonitionP_good (hc : Closed Ok) (ht : TagsOk qt cfg)
+    (hdiv : ∀ klass, qt (.name "div".toList) [(strClass, strAdmonition ++ ' ' :: klass)] = true)
     (hg : Good Ok qt pb1 pb2) (hb : Ok b) (hr : AllOk Ok rest) (hp : NI qt parent) (hit : AdmHit) :
     Concl Ok qt (admonitionP tab pb1 state refs parent b rest hit) (admonitionP tab pb2 state refs parent b rest hit) := by
   cases hit with
